@@ -282,6 +282,7 @@ func Worker(t *testing.T, a WorkerArgs) {
 	}
 	defer out.Close()
 	enc := json.NewEncoder(out)
+	nviol := 0
 	for i := 0; i < a.Count; i++ {
 		if a.Deadline > 0 && time.Since(start) > a.Deadline {
 			break
@@ -328,8 +329,14 @@ func Worker(t *testing.T, a WorkerArgs) {
 			sum.Samples = append(sum.Samples, s)
 		}
 		if len(rr.Viol) > 0 {
+			nviol++
 			if len(sum.Violations) < 50 {
 				sum.Violations = append(sum.Violations, rr)
+			}
+			// a broken tree can make every run expensive (livelocks burn the whole step budget):
+			// enough violating runs have been collected from this chunk
+			if nviol >= 25 {
+				break
 			}
 		}
 		if a.Trace {
